@@ -125,7 +125,7 @@ func init() {
 	}
 	ops["proto.marshalto"] = opMarshalTo
 	ops["proto.unknown"] = opUnknownInsert
-	ops["proto.scan"] = opScan
+	// proto.scan is registered in protoscan.go (opScan2: records before a failure, Scan and a Parse loop)
 	ops["proto.alloc"] = opAlloc
 }
 
@@ -1073,6 +1073,7 @@ func (h *H) genUnknownRecord(t *Ty, depth int) []byte {
 
 func runC07(h *H) {
 	h.protoPrimitives()
+	h.genScanCases()
 	for n := 0; n <= 9; n++ {
 		for l := 0; l <= n+12; l++ {
 			h.DoRisky("proto.bytearr", strconv.Itoa(n), strconv.Itoa(l))
